@@ -407,17 +407,32 @@ PROPS["C01"] = {
 
 
 PROPS["C18"] = {
-    "check_mods": ["C18"],
+    "check_mods": ["C18", "C18loop"],
     "model_out": "model_out",
-    "drivers": [{"name": "c18", "n_quick": 12, "n_thorough": 400, "timeout": 3000}],
-    "rule": "end to end: a real connection with tuning from {bound 1, 2, 16} x {high 1000, 8000, 50000} x {low 0, "
+    "drivers": [{"name": "c18loop", "n_quick": 240, "n_thorough": 12000, "timeout": 3000},
+                {"name": "c18", "n_quick": 12, "n_thorough": 400, "timeout": 3000}],
+    "rule": "c18loop: the REAL run_io_loop (real mio Poll, real mio-extras channels, real handle_steady_event, "
+            "real throttle tail) run on the harness thread through the LoopProbe; a callback plays 1-4 publishing "
+            "channels (bursts beyond the mailbox bound, channels opened while throttled, a handle dropped) and the "
+            "transport (stalls of 1-6 batches, partial writes); a quarter of the scenarios are built around 'a "
+            "channel stops at the mark, the socket takes the data in the same batch, another channel's event follows'; "
+            "bound from {1,2,4}, high from {100,300,1000}, low from {0, high/2, high}; every micro-step (send, poll, "
+            "channel event, write, allocation, tail) is recorded in the order it happened with what was observed "
+            "(accepted?, tokens reported, buffer length, channels_need_repoll, throttle action, socket interest) and "
+            "the Coq model (Model/Wake.v + Model/Loop.v) must reproduce every observation; then the run drains and the "
+            "wire must hold every accepted message once, per channel in order. Non-trivial = the run throttled or "
+            "re-armed at least once. c18, end to end: a real connection with tuning from {bound 1, 2, 16} x {high 1000, 8000, 50000} x {low 0, "
             "high/2}; 1-3 publisher threads, each with its own channel and 2500 publishes of 200 bytes to make; "
             "the transport accepts nothing until every publish counter has stood still for 120 ms (4 s at most), in a third of the "
             "scenarios a channel is opened and used while throttled; then the transport reopens, everybody must "
             "finish, the connection is closed and the wire is split by the harness's own splitter. Afterwards, "
             "alone: the adversarial schedule of the repaired finding drain-overshoot (scheduling-point hook: I/O thread "
             "slow inside its drain loop) and mem_channel_bound = 0. Every scenario is non-trivial; distinct = distinct case term.",
-    "explanation": "C18_throttle_spec / C18_resumes_at_low / C18_stays_throttled / C18_throttles_above_high "
+    "explanation": "C18_wake_invariant (no wake-up is lost, any interleaving), C18_tail_leaves_wakeups / "
+                   "C18_next_poll_reports / C18_resume_rearms / C18_throttled_has_data (every blocked publisher "
+                   "is served again), C18_event_bounded / C18_out_bounded / C18_backlog_bounded (buffering bounded "
+                   "by high-water mark + max(1, bound) messages per channel + one message), C18_drain_in_order; "
+                   "C18_throttle_spec / C18_resumes_at_low / C18_stays_throttled / C18_throttles_above_high "
                    "(the hysteresis of the loop tail) and C01_write_interest / C01_mailbox_fifo / "
                    "C01_trace_conserves (nothing lost or reordered across throttling). Oracle: every publisher "
                    "stood still during the last part of the stall although it had plenty left; everybody "
@@ -426,8 +441,12 @@ PROPS["C18"] = {
                    "compared with high + channels x (bound + 2) x message.",
     "trusted_base": L2_TRUSTED + ["blocking of a sender inside std's sync_channel, mio-extras readiness of its channels, "
                                   "mio edge-triggered (re)registration: library behaviour, sampled not modelled",
-                                  "the loop-tail model (Model/Loop.v) is tied to the code only through these end-to-end "
-                                  "runs: the tail is not callable in isolation and a hook may not refactor it"],
+                                  "Model/Wake.v contains a model of mio's edge-triggered user-space registrations and of "
+                                  "mio-extras' channel readiness (count of pending items, sender drop = one more item): "
+                                  "library behaviour, not proved, but compared step by step with the real libraries by c18loop",
+                                  "the LoopProbe registers channel 0's three sources and the socket as IoLoop::start / "
+                                  "thread_main do (copied lines), starts from Steady with an empty buffer, and its socket is "
+                                  "a user-space registration kicked before every poll"],
     "assumptions": [],
 }
 
